@@ -77,6 +77,7 @@ type family struct {
 	schema *gast.Schema
 	layout *fedlab.Layout
 	ops    []*fedlab.Op
+	chains []*fedlab.Op // spine operations for the nested-chain placements
 }
 
 func mustSchema(sdl string) *gast.Schema {
@@ -134,6 +135,22 @@ func families(run *vk.Run) []*family {
 		for _, op := range f.ops[:n] {
 			f.ops = append(f.ops, fedlab.AliasAll(op))
 		}
+	}
+	// spine operations for the nested-chain placements (fedlab.DeferChainVariants)
+	for _, sp := range []struct {
+		f      *family
+		spine  []string
+		leaves []string
+	}{
+		{fc, []string{"me", "favorite", "seller"}, []string{"name", "nick", "role"}},
+		{fc, []string{"topProducts", "reviews", "author"}, []string{"name", "nick", "role"}},
+		{fr, []string{"items", "parts", "item"}, []string{"price", "weight", "shipping"}},
+	} {
+		op, err := fedlab.SpineOp(sp.f.schema, sp.spine, sp.leaves)
+		if err != nil {
+			panic(err)
+		}
+		sp.f.chains = append(sp.f.chains, op)
 	}
 	return []*family{fc, fa, fr}
 }
@@ -446,9 +463,10 @@ func TestCheck(t *testing.T) {
 			if err != nil {
 				t.Fatal(err)
 			}
-			for _, base := range f.ops {
+			for bi, base := range append(append([]*fedlab.Op(nil), f.ops...), f.chains...) {
+				isChain := bi >= len(f.ops)
 				caseNo++
-				if rin == nil && !run.Mine(caseNo) {
+				if rin == nil && !isChain && !run.Mine(caseNo) {
 					continue
 				}
 				if run.Expired() {
@@ -473,15 +491,30 @@ func TestCheck(t *testing.T) {
 				}
 				_, plainHasErrors := pm["errors"]
 				want := refexec.Canon(pm["data"])
-				for _, op := range fedlab.DeferVariants(base, maxSites) {
+				variants := fedlab.DeferVariants(base, maxSites)
+				if isChain {
+					// nested chains: up to seven nested @defer levels with a field selected
+					// again on another level; sharded by variant
+					variants = fedlab.DeferChainVariants(base, run.Thorough())
+				}
+				for vi, op := range variants {
+					if isChain && rin == nil && !run.Mine(caseNo+int64(vi)) {
+						continue
+					}
+					if isChain {
+						run.Count("nested_chain_variants", 1)
+					}
 					q := op.String()
 					if rin != nil && (rin.Family != f.name || rin.Op != q) {
 						continue
 					}
 					shapes := map[string]bool{}
+					// every deferred field is also selected outside the fragments: merging
+					// removes the defers, an ordinary response is the right answer
+					redundant := fedlab.NoEffectiveDefer(op)
 					judge := func(x *fedorders.Exec) {
 						o := x.Obs.(obs)
-						if allDefersDisabled(q) && len(o.w.frames) == 0 && o.w.completes == 0 && len(o.w.buf) > 0 {
+						if (allDefersDisabled(q) || redundant) && len(o.w.frames) == 0 && o.w.completes == 0 && len(o.w.buf) > 0 {
 							// every @defer is switched off: the operation is an ordinary one and is
 							// answered like the plain operation - one response, written without a
 							// flush; its data is still compared below
